@@ -159,11 +159,23 @@ def carry_key(fmt, opts=(), kw=None):
     return fmt
 
 
+def _escape_pos(spec):
+    """a parenthesis in a POS tag (STTS "$(") cannot stand in the tree part of a bracket format:
+    our encoder writes it PTB style, as it does for words"""
+    def leaf(l):
+        if lf.has_paren(l["l"]):
+            l["l"] = lf.ptb_escape(l["l"])
+    return lf.map_spec(spec, leaf)
+
+
 def src_specs(w):
-    """the specs as the source FILE carries them (bracket sources: tokens under their PTB names)"""
+    """the specs as the source FILE carries them (bracket sources: tokens -- word and POS tag --
+    under their PTB names; discobracket sources: the POS tags, the sentence part carries raw words)"""
     specs = w["specs"]
     if w["src"]["fmt"] == "brackets":
-        specs = [lf.escape_spec_for_brackets(s) for s in specs]
+        specs = [_escape_pos(lf.escape_spec_for_brackets(s)) for s in specs]
+    elif w["src"]["fmt"] == "discobrackets":
+        specs = [_escape_pos(s) for s in specs]
     return specs
 
 
@@ -202,7 +214,9 @@ def _norm(specs, mapped):
             if l.get(f) is None:
                 l[f] = lf.EMPTY
         if mapped:
+            # "bracket formats map parentheses inside tokens to the documented names": word and POS tag
             l["w"] = lf.ref_replace_parens(l["w"])
+            l["l"] = lf.ref_replace_parens(l["l"])
 
     def node(n):
         if n.get("e") is None:
@@ -454,7 +468,10 @@ def _max_gap(spec):
     return max(tg.gap_degree_of_set([l["n"] for l in tg.spec_leaves(s)]) for s, _ in tg.spec_nodes(spec))
 
 
-def _corpus(rng, kind, max_n, words, gap1=False):
+PAREN_TAGGED = ("(", ")", "\"", "''", "``", "-", "(x)", "[y]")
+
+
+def _corpus(rng, kind, max_n, words, gap1=False, pos_paren=True):
     """kind: cont | disc | tiny; gap1: the discontinuous tree has gap degree exactly 1 (the boundary
     of what the bracket writer must refuse)"""
     specs = []
@@ -472,6 +489,11 @@ def _corpus(rng, kind, max_n, words, gap1=False):
         if kind == "disc" and len(specs) != 1 and not lf.spec_is_continuous(s):
             continue        # ... the others are continuous (so that skipping is visible)
         lf.decorate(s, rng, words=words)
+        if pos_paren:
+            # STTS: parentheses, quotes and dashes are tagged "$(" -- a POS tag with a bracket character
+            for l in tg.spec_leaves(s):
+                if l["w"] in PAREN_TAGGED and rng.random() < 0.7:
+                    l["l"] = "$("
         specs.append(s)
     sids = sorted(rng.sample(range(2, 300), len(specs)))
     return lf.with_sids(specs, sids)
@@ -536,7 +558,9 @@ def _items(ctx):
         pool = lf.WORDS_ALL if i % 3 == 0 else lf.WORDS_NOPAREN
         corpora.append((kind, _corpus(rng, kind, b["max_tokens"], pool, gap1=(i % 6 == 1))))
     tg.spec_leaves(corpora[0][1][0])[0]["w"] = "(x)"      # a token with parentheses is always in
+    tg.spec_leaves(corpora[0][1][0])[0]["l"] = "$("       # ... and a POS tag with one
     cont = [c for k, c in corpora if k != "disc"]
+    tg.spec_leaves(cont[-1][-1])[-1].update(w="``", l="$(")
     n = 0
     # --- all pairs -------------------------------------------------------------------
     for sf in SRC_FORMATS:
@@ -604,6 +628,14 @@ def _items(ctx):
         specs = cont[(j + 1) % len(cont)]
         w = {"specs": specs, "src": _src(sf, j, rng), "gz": True, "steps": [{"fmt": "export", "opts": []}]}
         yield "gzip_source", w, _key("gz", w, specs)
+    # gzip x source encoding: the archive holds the bytes of the file, in whatever encoding it is
+    # (--src-enc for export / brackets / discobrackets, the XML declaration for TIGER-XML)
+    for j, sf in enumerate(SRC_FORMATS):
+        for se in ("latin-1", "utf-16"):
+            src = _src(sf, j, rng, base=1)        # discobrackets: the documented index convention
+            w = {"specs": lat, "src": src, "src_enc": se, "gz": True,
+                 "steps": [{"fmt": ["export", "tigerxml"][j % 2], "opts": []}]}
+            yield "gzip_source", w, _key("gz-enc", w, lat)
     for j, (sf, df) in enumerate([("export", "discobrackets"), ("brackets", "export"), ("tigerxml", "terminals")]):
         parts = [c for c in cont[:3]]
         w = {"parts": parts, "specs": None, "src": _src(sf, j, rng), "steps": [{"fmt": df, "opts": []}]}
